@@ -181,7 +181,7 @@ OLDQ = f"old({Q})"
 KEYED = "all(tags[k].name == k for k in tags)"
 collect = Contract(
     target=B + "collect_tag_updates", types=CT, raises={},
-    calls={"self.engine.tag_updates.get_nowait": q_get_nowait, "self.engine.tag_updates.task_done": q_noop, "tag_org.as_readonly": as_readonly,
+    calls={"self.engine.tag_updates.get_nowait": q_get_nowait, "self.engine.tag_updates.task_done": q_noop, "*.as_readonly": as_readonly,
            "to_model_tag": to_model, "self.engine.notify_all_tags": notify_all},
     requires=["not snapshot", f"{Q} is not None",
               # tag names identify tags (TagCollection keys; system and uod tag names are disjoint): pending entries with one name are one tag
